@@ -2,6 +2,7 @@ package props
 
 import (
 	"bufio"
+	"bytes"
 	"fmt"
 	"io"
 	"os"
@@ -473,6 +474,32 @@ func init() {
 			got := dumpGoValue(v.FieldByIndex(f.Index))
 			if got != want {
 				return fmt.Sprintf("FAIL field %s: got %s want %s", name, got, want)
+			}
+		}
+		if kind == "DebControl" {
+			// the same control file inside a .deb, the tar members stored in each way deb(5) names
+			// (control.tar, control.tar.gz, ...): deb.Load decodes the same fields
+			exts := []string{"", ".gz", ".xz", ".bz2", ".zst", ".lzma"}
+			for k := 0; k < 2; k++ {
+				m := debModel{BinaryText: "2.0\n", ControlText: text, CtlFiles: []tarFile{{Name: "./control", Body: text}},
+					DataFiles: []tarFile{{Name: "./", Dir: true}}, CtlExt: exts[(len(text)+k*3)%len(exts)], DataExt: exts[(len(text)/7+k)%len(exts)]}
+				if k == 0 {
+					m.CtlExt = ""
+				}
+				d, err := deb.Load(bytes.NewReader(buildAr(m.members())), "x.deb")
+				if err != nil {
+					return fmt.Sprintf("FAIL a .deb with control.tar%s / data.tar%s around this control file does not load: %v", m.CtlExt, m.DataExt, err)
+				}
+				for _, e := range a[2:] {
+					i := strings.IndexByte(e, '=')
+					name, want := e[:i], e[i+1:]
+					f, _ := t.FieldByName(name)
+					if got := dumpGoValue(reflect.ValueOf(d.Control).FieldByIndex(f.Index)); got != want {
+						d.Close()
+						return fmt.Sprintf("FAIL loaded from a .deb (control.tar%s), field %s: got %s want %s", m.CtlExt, name, got, want)
+					}
+				}
+				d.Close()
 			}
 		}
 		// a source that fails part-way (an I/O error, a truncated compressed stream - anything but a
